@@ -182,6 +182,12 @@ def obligations(H, ex, it, root):
     info = lambda m: named_case(ex, m, root)
     pieces = []
     try:
+        # parser output has passed the definition-order check: run the real one and skip the rest
+        errs = VecV()
+        it.call("parser", "check_definitions", [none(), Str(""), root, 0, errs])
+        if len(errs):
+            ex.count("fails-definition-order")
+            return
         it.display_value(root, pieces)
     except FuelExhausted:
         ex.count("fuel")
@@ -236,13 +242,15 @@ def make_factory(H, budget, alphabet, depth_family=False):
 FORMERS = [c for c in TC.HOLE_FREE if ARITY[c] > 0 and c not in ("Let2", "Let3")]
 
 
-def pair_alphabet(node):
-    """Every former in every operand position of every other: the root and ONE child are formers."""
-    if node.depth == 1:
-        return FORMERS
-    if node.depth == 2:
-        return FORMERS + ["Type", "Variable"]
-    return ["Type", "Variable"]
+def pair_alphabet(slot):
+    """Every former in operand position `slot` of every former; all other positions are leaves."""
+    def alpha(node):
+        if node.depth == 1:
+            return FORMERS
+        if node.depth == 2:
+            return FORMERS if node.slot == slot else ["Type", "Variable"]
+        return ["Type", "Variable"]
+    return alpha
 
 
 def round_trip(H, tj, cells, scope=()):
@@ -349,18 +357,10 @@ def classify(H, label, case):
 
 
 def handle(H, records, cap=30):
-    """Counterexamples are grouped by role; one native confirmation and one report per role."""
-    groups = {}
-    order = []
-    for label, case, trace in records:
-        key0 = label.split(" ")[0] + ":" + shape(case["t"])
-        if key0 not in groups:
-            groups[key0] = []
-            order.append(key0)
-        groups[key0].append((label, case))
+    """Every counterexample is replayed natively and classified by its minimal failing subterm;
+    one report per role."""
     reported = {}
-    for key0 in order:
-        label, case = groups[key0][0]
+    for label, case, trace in records[:3000]:
         if label.startswith("PANIC"):
             reproduced, detail = c03.native_panic(H, case)
             role = "PANIC"
@@ -368,15 +368,49 @@ def handle(H, records, cap=30):
             reproduced, detail = confirm(H, label, case)
             role = classify(H, label, case)[0] if reproduced else None
         if reproduced and role in reported:
-            reported[role] += len(groups[key0])
+            reported[role] += 1
             continue
         if reproduced:
-            reported[role] = len(groups[key0])
+            reported[role] = 1
             if len(reported) > cap:
                 continue
         H.report("%s [%s]" % (label, role), case, reproduced, detail, finding=role_of(role) if reproduced else None)
     if reported:
         H.log("roles: %s" % reported)
+
+
+def validate(H, n):
+    """Encoder validation: the interpreter's execution of Display against the compiled one."""
+    if H.worker:
+        return
+    from gramsym.termgen import random_program
+    replay = H.get_replay()
+    bad = 0
+    for i in range(n):
+        ex, it = H.engine()
+        ex.frames.append(Frame(ex._new_solver()))
+        ex.fuel_left = 10 ** 6
+        ex.eval_left = 10 ** 8
+        tj, cells = random_program(H.rng, depth=H.rng.randint(2, 4), holes=(i % 3 != 0))
+        tj = name_json(tj)
+        cells = {k: (name_json(v) if v is not None else None) for k, v in cells.items()}
+        tv = T.from_json(tj, cells, {})
+        pieces = []
+        try:
+            it.display_value(tv, pieces)
+            mine = "".join(p if isinstance(p, str) else (str(p[1].v) if p[0] == "int" else str(p[1])) for p in pieces)
+        except (FuelExhausted, PanicEx) as e:
+            mine = "<%s>" % type(e).__name__
+        theirs = replay.call({"op": "show", "term": tj, "cells": cells}).get("result")
+        if mine != theirs:
+            bad += 1
+            H.mismatches.append({"label": "validate.display", "case": {"t": tj, "cells": cells}, "detail": "interpreter %r, compiled %r" % (mine, theirs)})
+        H.validated += 1
+        H.functions |= ex.functions_executed
+        ex.frames.pop()
+    for mm in H.mismatches[:2]:
+        H.log("  " + str(mm["detail"])[:400])
+    H.log("encoder validation: %d random programs printed by the interpreter's execution of Display and by the compiled one, %d disagreements" % (n, bad))
 
 
 def role_of(role):
@@ -393,10 +427,12 @@ def main():
         reproduced, detail = confirm(H, rec["label"], rec["case"])
         print(("REPRODUCED: " if reproduced else "NOT REPRODUCED: ") + detail)
         return 1 if reproduced else 0
+    validate(H, 150 if quick else 600)
     budget = int(os.environ.get("C16_BUDGET", "0")) or (4 if quick else 5)
     parts = [("print/read-back of every parser-shaped term of <= %d nodes" % budget, make_factory(H, budget, TC.WITH_HOLES))]
     if not os.environ.get("SKIPFAM"):
-        parts.append(("former pairs: every former in every operand position of every former", make_factory(H, 0, pair_alphabet, depth_family=True)))
+        for slot in range(3 if quick else 5):
+            parts.append(("former pairs: every former in operand position %d of every former, leaves elsewhere" % slot, make_factory(H, 0, pair_alphabet(slot), depth_family=True)))
     for name, mk in parts:
         t0 = time.time()
         m = parallel_explore(mk, H.jobs)
@@ -404,9 +440,10 @@ def main():
         H.log("%s: %d paths %s, %d obligations, %d discharged, %d workers, %.1fs" % (
             name, m.stats.get("paths", 0), m.counters, m.stats.get("obligations", 0), m.stats.get("discharged", 0), m.workers, time.time() - t0))
         handle(H, m.violations)
-    H.bounds.update({"terms": "closed parser-shaped terms (holes as the parser places them, groups of <= 2 definitions) of at most %d nodes; and all terms of depth <= 3 whose root and children are formers over Type/variable leaves" % budget,
+    H.bounds.update({"terms": "closed parser-shaped terms (holes as the parser places them, groups of <= 2 definitions) of at most %d nodes; and every former in operand position 0..%d of every former with Type/variable leaves elsewhere" % (budget, 2 if quick else 4),
                      "outside": "larger terms; names that collide (binders are given distinct names, as the parser's re-binding check enforces); terms containing solved holes"})
-    H.assumptions += ["input terms satisfy the parser-output invariants (closed, hole shifts as the parser sets them, non-negative literals, a group's body is not a group)"]
+    H.assumptions += ["input terms satisfy the parser-output invariants (closed, hole shifts as the parser sets them, non-negative literals, a group's body is not a group, accepted by the real parser::check_definitions)",
+                      "a hole reads back as a hole: its shift (a scope marker the parser derives from the position) is not compared"]
     return H.finish()
 
 
